@@ -22,8 +22,8 @@ M = [
   [(S, "                    // Skip decrementing a strong count of the inserted pointer.\n                    forget(desired);\n                    let rc = Rc::from_raw(expected_raw);\n                    return Ok(rc);\n                }\n                Err(current_raw) => {\n                    if current_raw.ptr_eq(expected_raw) {\n                        expected_raw = current_raw;\n                    } else {\n                        let current = Snapshot::from_raw(current_raw, guard);\n                        return Err(CompareExchangeError { desired, current });\n                    }\n                }\n            }\n        }\n    }\n\n    /// Stores the [`Rc`] pointer `desired` into the atomic pointer if the current value is the\n    /// same as `expected` [`Snapshot`] pointer. The tag is also taken into account,\n    /// so two pointers to the same object, but with different tags, will not be considered equal.\n    ///\n    /// Unlike",
        "                    // Skip decrementing a strong count of the inserted pointer.\n                    drop(desired);\n                    let rc = Rc::from_raw(expected_raw);\n                    return Ok(rc);\n                }\n                Err(current_raw) => {\n                    if current_raw.ptr_eq(expected_raw) {\n                        expected_raw = current_raw;\n                    } else {\n                        let current = Snapshot::from_raw(current_raw, guard);\n                        return Err(CompareExchangeError { desired, current });\n                    }\n                }\n            }\n        }\n    }\n\n    /// Stores the [`Rc`] pointer `desired` into the atomic pointer if the current value is the\n    /// same as `expected` [`Snapshot`] pointer. The tag is also taken into account,\n    /// so two pointers to the same object, but with different tags, will not be considered equal.\n    ///\n    /// Unlike")]),
  ("M03", "mutant", "Snapshot::counted does not increment the count", ["C01", "C08"],
-  [(S, "        let rc = Rc::from_raw(self.ptr);\n        unsafe {\n            if let Some(cnt) = rc.ptr.as_raw().as_ref() {\n                cnt.increment_strong();\n            }\n        }\n        rc\n    }\n\n    /// Converts to `WeakSnapshot`",
-       "        let rc = Rc::from_raw(self.ptr);\n        rc\n    }\n\n    /// Converts to `WeakSnapshot`")]),
+  [(S, "    pub fn counted(self) -> Rc<T> {\n        // Count first, see `Rc::clone`.\n        unsafe {\n            if let Some(cnt) = self.ptr.as_raw().as_ref() {\n                cnt.increment_strong();\n            }\n        }\n        Rc::from_raw(self.ptr)\n    }",
+       "    pub fn counted(self) -> Rc<T> {\n        Rc::from_raw(self.ptr)\n    }")]),
  ("M04", "mutant", "cascade threshold -3 -> -1", ["C02", "C12"],
   [(U, "modu.le(node_epoch as _, curr_epoch as isize - 3)", "modu.le(node_epoch as _, curr_epoch as isize - 1)")]),
  ("M05", "mutant", "cascade reclaims every child immediately (`depth == 0 ||` -> `true ||`)", ["C02", "C12"],
@@ -76,11 +76,11 @@ M = [
  ("M26", "mutant", "AtomicWeak::compare_exchange returns `desired`'s pointer as the previous value", ["C09"],
   [(W, "                    forget(desired);\n                    let weak = Weak::from_raw(expected_raw);\n                    return Ok(weak);\n                }\n                Err(current_raw) => {\n                    // The internal epoch bits", "                    let weak = Weak::from_raw(desired.ptr);\n                    forget(desired);\n                    return Ok(weak);\n                }\n                Err(current_raw) => {\n                    // The internal epoch bits")]),
  ("M27", "mutant", "new_many allocates with N-1 shares (for N >= 2)", ["C10"],
-  [(S, "        let ptr = RcInner::alloc(obj, N as _);\n        [(); N].map", "        let ptr = RcInner::alloc(obj, if N >= 2 { N - 1 } else { N } as _);\n        [(); N].map")]),
+  [(S, "        let ptr = RcInner::alloc(obj, checked_count(N));\n        [(); N].map", "        let ptr = RcInner::alloc(obj, checked_count(if N >= 2 { N - 1 } else { N }));\n        [(); N].map")]),
  ("M28", "mutant", "NewRcIter::drop releases remain-1 shares", ["C10"],
   [(S, "                RcInner::decrement_strong(self.ptr.as_raw(), self.remain as _, None);", "                RcInner::decrement_strong(self.ptr.as_raw(), (self.remain - 1).max(1) as _, None);")]),
  ("M29", "mutant", "weak_many adds N+1 weak shares", ["C10"],
-  [(S, "            cnt.increment_weak(N as u32);", "            cnt.increment_weak(N as u32 + 1);")]),
+  [(S, "            cnt.increment_weak(checked_count(N));", "            cnt.increment_weak(checked_count(N) + 1);")]),
  ("M30", "mutant", "epoch bits one position too low (overlap with the address)", ["C11"],
   [(P, "        usize::BITS - HIGH_TAG_WIDTH\n", "        usize::BITS - HIGH_TAG_WIDTH - 1\n")]),
  ("M31", "mutant", "Tagged::is_null tests the raw word", ["C11"],
@@ -137,7 +137,7 @@ M = [
   [(U, "            let modu: Modular<EPOCH_WIDTH> = Modular::new(global_epoch() as isize + 1);\n\n            // Decrement next node's strong count and update its epoch.", "            // Decrement next node's strong count and update its epoch.")]),
  ("M58", "mutant", "unpin writes back the guard count it read before the collection (revert of D12, first half)", ["C16"],
   [(I, "        let guard_count = self.guard_count.get();\n        self.guard_count.set(guard_count - 1);", "        self.guard_count.set(guard_count - 1);"),
-   (I, "    pub(crate) fn unpin(&self) {\n        if self.guard_count.get() == 1 && !self.collecting.get() {", "    pub(crate) fn unpin(&self) {\n        let guard_count = self.guard_count.get();\n        if guard_count == 1 && !self.collecting.get() {")]),
+   (I, "    pub(crate) fn unpin(&self) {\n        if self.guard_count.get() == 1\n", "    pub(crate) fn unpin(&self) {\n        let guard_count = self.guard_count.get();\n        if guard_count == 1\n")]),
  ("M59", "mutant", "the collection loop of unpin re-pins although a deferred function kept a guard (revert of D12, second half, first site)", ["C16"],
   [(I, "                if self.guard_count.get() == 1 {\n                    self.repin_without_collect();\n                }", "                self.repin_without_collect();")]),
  ("M67", "mutant", "the disposal pass re-pins every 128 nodes although a deferred function kept a guard (revert of D12, second half, second site)", ["C16"],
